@@ -1,4 +1,6 @@
 SPECIFICATION Spec
-CONSTANT N = 3
+CONSTANTS
+  N = 3
+  CandChoice = "all"
 INVARIANT DetectOK
 INVARIANT DetectAnyOK
